@@ -117,6 +117,30 @@ Inductive fcode :=
 | FNotFound            (* Client.ResourceNotFound *)
 | FServer.             (* Server: an exception inside process_request *)
 
+(** ** The arguments of a client call: sequential ones fill the parameters in order, a name-based one that is passed
+    takes the place of the sequential one, a parameter passed neither way is None.  The rule is generated
+    ([xw_client_merge]); under [MergeKwTruthyWins] (kwargs.get(k) or ...) a falsy name-based value would be dropped. *)
+Definition falsy (v : val) : bool :=
+  match v with
+  | VNone | VLeaf (LInt 0) | VLeaf (LBool false) | VLeaf (LText []) | VLeaf (LDur 0) | VList [] => true
+  | _ => false
+  end.
+Fixpoint kw_find (k : text) (kw : list (text * val)) : option val :=
+  match kw with
+  | [] => None
+  | (n, v) :: r => if text_eqb n k then Some v else kw_find k r
+  end.
+Fixpoint merge_args (rule : merge_rule) (names : list text) (pos : list val) (kw : list (text * val)) : list val :=
+  match names with
+  | [] => []
+  | n :: ns =>
+      let p := hd VNone pos in
+      (match kw_find n kw with
+       | Some x => match rule with MergeKwWins => x | MergeKwTruthyWins => if falsy x then p else x end
+       | None => p
+       end) :: merge_args rule ns (tl pos) kw
+  end.
+
 (** ** Documents as they are on the wire and the tree the parser hands to the protocol.
     An element's content is a sequence of character data, elements, comments and processing instructions.
     lxml (XMLParser( **self.parser_kwargs ), generated flags) drops the comments / PIs it is told to remove and
@@ -382,6 +406,10 @@ Section Pipeline.
     | PXml => Ok body
     | _ => do hs <- hdr_out (m_in_header m) hdr; Ok (envelope P hs body)
     end.
+
+  (** RemoteProcedureBase.get_out_object: client.service.f( *pos, **kw ) *)
+  Definition client_request_named (i : nat) (m : method) (hdr : option (list val)) (pos : list val) (kw : list (text * val)) : out xnode :=
+    client_request i m hdr (merge_args xw_client_merge (map f_name (m_params m)) pos kw).
 
   (** reading the response with the out message: get_in_object's decompose + deserialize,
       then the result unwrapped: the single member / the sequence of members of the wrapper,
